@@ -103,7 +103,7 @@ class C17(Prop):
                     i += 1
                     if i % nshards != shard:
                         continue
-                    yield mk('c17.powChain', chain, hb.hex(), b, tag='pow-hashlen')
+                    yield mk('c17.powChain', chain, hb.hex(), b, tag='pow-hashlen', ood=True)
         # (d) the same compact values under the chains in the opposite order (regtest first): an answer
         #     memoised under one chain must not survive SelectParams()
         probe = sorted({self.S.compact_from_uint256(v) for lim in limits.values()
